@@ -408,6 +408,9 @@ func (x *Exec) execInstr(f *Frame, b *ssa.BasicBlock, ins ssa.Instruction) {
 		empty := MkMapV(x.tm.ConstArray(ks, tFalse), x.tm.ConstArray(ks, x.tm.Zero(mt.Elem())), IntLit(0))
 		_ = vs
 		x.mapSet(x.cur, mt, ref, empty)
+		if x.usesSz && ks == SStr && vs == SStr {
+			x.assume(x.cur.reach, Eq(x.szTerm(empty), IntLit(0)))
+		}
 		f.regs[i] = Val{T: ref}
 	case *ssa.MakeSlice:
 		x.execMakeSlice(f, i)
